@@ -13,7 +13,7 @@ EXPLANATION = (
     "the `parts.len() == num_parts` edge and passes finish_delta(tick); the result is concatenated from "
     "`parts.values()` (key order).  R4 (sender/receiver split): delta_chunks cuts at MAX_SNAPSHOT_PACKSIZE with a "
     "ceiling division, sends `tick - base` and the receiver reconstructs `tick.wrapping_sub(wire)` in all three "
-    "message forms.  Not decided: exactly-once delivery over all permutations (schedule level)."
+    "message forms.  R1b: can_receive consults the transfer in progress before the last completed tick.  Not decided: exactly-once delivery over all permutations (schedule level)."
 )
 ASSUMPTIONS = ["VecMap::values iterates in key order (vec_map documentation)"]
 
